@@ -18,7 +18,9 @@ def _sig(a, b):
             'lean_name': 'mulPixelscale' + ('N' if a == 'none' else 'P') + ('N' if b == 'none' else 'P')}
 
 PLANEPX = {
-    '_mul_pixelscale#NN': _sig('none', 'none'),
+    # the NN variant returns None, which the translator self-check (tools/transcheck.py) cannot flatten: the dummy
+    # `call_as` entry marks it as not self-checkable (it is the constant `Except.ok ()`); the other three are self-checked
+    '_mul_pixelscale#NN': dict(_sig('none', 'none'), call_as={'__not_selfchecked__()': 'a_pixelscale'}),
     '_mul_pixelscale#NP': _sig('none', 'pair'),
     '_mul_pixelscale#PN': _sig('pair', 'none'),
     '_mul_pixelscale#PP': _sig('pair', 'pair'),
